@@ -226,6 +226,29 @@ def check_after_edit(sc, k, factor):
     return (dev, "<= 0.01 K") if not dev <= 0.01 else None
 
 
+def check_shared_base(sc):
+    """one layer stack used for two media: `a = base + soil_A` is edited in place, then `b = base + soil_B` is simulated - b is the stack
+    the scene describes over soil_B"""
+    import copy
+    from smrt import make_model, sensor_list, make_soil
+    sp, atm = scenes.build(sc)
+    sub = sp.substrate
+    base = scenes.build(dict(sc, substrate=None))[0]
+    a = base + make_soil("flat", complex(4.0, 0.3), 260.0)
+    a += copy.deepcopy(a.layers[-1])
+    a.delete(0) if len(a.layers) > 2 else None
+    b = base + sub
+    med = (atm + b) if atm is not None else b
+    m = make_model("nonscattering", "dort", rtsolver_options=dict(n_max_stream=sc["nmax"]))
+    first = m.run(sensor_list.passive(sc["frequency"], [10.]), med)
+    res = m.run(sensor_list.passive(sc["frequency"], list(stream_angles(first))), med)
+    if len(b.layers) != len(sc["thickness"]):
+        return (float(len(b.layers)), f"{len(sc['thickness'])} layers")
+    _, ref = closed_form(sc, res, sp, atm)
+    dev = float(np.abs(np.asarray(res.data.values) - ref).max())
+    return (dev, "<= 0.01 K") if not dev <= 0.01 else None
+
+
 def check_bare(sc, via_argument=False):
     """a bare substrate under a transparent volume: e*Tsub + r*Tsky"""
     from smrt import make_model, sensor_list
@@ -299,6 +322,14 @@ def oracle(ctx, hints, effort):
                         findings.setdefault("closed-form:series-arguments", Finding("closed-form:series-arguments", "per-layer arguments given as pandas Series "
                                             f"with reversed integer labels: Tb differs from the incoherent closed form by {r[0]:.3g} K",
                                             {"kind": "stack", "scene": sc3}, r[0], r[1]))
+            if it == 8 or (effort != "routine" and it % 10 == 8):
+                evals += 2
+                scb = sc if (sc.get("substrate") and sc["substrate"]["kind"] != "reflector") else dict(sc, substrate=dict(kind="flat", T=265.0, eps=[8.0, 1.0]))
+                r = check_shared_base(scb)
+                if r:
+                    findings.setdefault("closed-form:shared-base", Finding("closed-form:shared-base", "a = base + soil_A edited in place, then b = base + "
+                                        f"soil_B simulated: differs from the closed form of the described stack over soil_B by {r[0]:.3g}",
+                                        {"kind": "shared-base", "scene": scb}, r[0], r[1]))
             if it in (5, 6) or (effort != "routine" and it % 10 == 5):
                 evals += 1
                 k_ = int(rng.integers(0, len(sc["thickness"])))
@@ -321,6 +352,9 @@ def oracle(ctx, hints, effort):
 
 
 def replay(inp, rp=None):
+    if inp["kind"] == "shared-base":
+        r = check_shared_base(inp["scene"])
+        return Finding("?", "closed form with a shared base", inp, r[0], r[1]) if r else None
     if inp["kind"] == "after-edit":
         r = check_after_edit(inp["scene"], inp["k"], inp["factor"])
         return Finding("?", "closed form after an in-place edit", inp, r[0], r[1]) if r else None
